@@ -7,7 +7,7 @@ CONSTANTS
   FailEnds = {"exit0_nodrain"}
   LinkEnds = {"exit0"}
   MaxFail = 1
-  Devs = {"TempLeak", "LinkSpawnLeak"}
+  Devs = {}
   KeepReadEnds = TRUE
   EmitCases = FALSE
 PROPERTIES Live_Exits
